@@ -811,10 +811,13 @@ static void simple_release(int ci)
 	}
 }
 
+static char start_cwd[PATH_MAX];
+
 static void reset_all(void)
 {
 	int i;
 	vf_fail_at = 0;
+	if (start_cwd[0] && chdir(start_cwd) != 0) { /* ignore */ }
 	for (i = 0; i < MAXCTX; i++) {
 		if (ctx[i])
 			cfg_free(ctx[i]);
@@ -977,6 +980,8 @@ int main(int argc, char **argv)
 		errno = 0;
 
 		if (strcmp(t[0], "begin") == 0) {
+			if (!start_cwd[0] && !getcwd(start_cwd, sizeof start_cwd))
+				start_cwd[0] = 0;
 			reset_all();
 			rm_rf(scratch);		/* every behaviour starts from an empty scratch tree */
 			mkdir(scratch, 0755);
@@ -1417,6 +1422,14 @@ int main(int argc, char **argv)
 				rm_rf(path);
 			} else
 				die("bad fs op");
+			free(path);
+			free(d);
+		} else if (strcmp(t[0], "chdir") == 0) {
+			/* working directory of the process (restored at the next begin) */
+			char *d = pct_decode(ARG(1));
+			char *path = fs_path(d);
+			if (chdir(path) != 0)
+				die("cannot chdir to %s", path);
 			free(path);
 			free(d);
 		} else if (strcmp(t[0], "oom") == 0) {
